@@ -8,7 +8,8 @@ from .. import linexpr as lx
 from ..core import AnalysisError, Report
 from ..linexpr import Env, py_ir, to_lin
 from ..pycfg import build_py_cfg, run_typestate
-from ..pyfacts import Repo, eval_int_expr, calls, dotted, norm, raise_guards, raised_class, walk_no_nested
+from ..pysubst import method_outcomes
+from ..pyfacts import Repo, cc, cn, inline_pure_temps, clone, eval_int_expr, calls, dotted, norm, raise_guards, raised_class, walk_no_nested
 
 ASM = 'flipjump/assembler/assembler.py'
 PRE = 'flipjump/assembler/preprocessor.py'
@@ -132,10 +133,15 @@ def rule_addr_model(rep: Report, repo: Repo) -> None:
     pre_seg = [norm(v) for op, v in _self_updates(ins, 'curr_address') if op == '=']
     seg_arg = [norm(c.args[0]) for c in calls(ins) if dotted(c.func) == 'NewSegment']
     ns = repo.func(ASM, 'BinaryData.insert_new_segment')
-    asm_seg = {norm(s.targets[0]): norm(s.value) for s in ns.body if isinstance(s, ast.Assign)}
+    def final_state(method: str) -> Dict[str, str]:
+        outs = method_outcomes(repo, ASM, 'BinaryData', method)
+        if len(outs) != 1:
+            raise AnalysisError(f'BinaryData.{method}: expected one straight-line path, found {len(outs)}')
+        return outs[0].state
+    asm_seg = final_state('insert_new_segment')
     seg_call = [[norm(a) for a in c.args] for s in br.get(frozenset({'NewSegment'}), []) for c in ast.walk(s) if isinstance(c, ast.Call) and dotted(c.func) == 'binary_data.insert_new_segment']
     ok = pre_seg == ['next_segment_start'] and seg_arg == ['next_segment_start'] and asm_seg.get('self.first_address') == 'first_address' \
-        and asm_seg.get('self.current_address') == 'self.first_address' and asm_seg.get('self.next_wflip_address') == 'wflip_first_address' \
+        and asm_seg.get('self.current_address') == 'first_address' and asm_seg.get('self.next_wflip_address') == 'wflip_first_address' \
         and seg_call == [['fjm_writer', 'op.start_address', 'op.wflip_start_address']]
     rep.check(ok, 'C02.ADDR-MODEL', 'NewSegment', f'preprocessor := {pre_seg}, NewSegment({seg_arg}); emitter {asm_seg} from {seg_call}',
               f'{PRE}:{ins.lineno}', expected='both cursors := the segment start')
@@ -143,10 +149,10 @@ def rule_addr_model(rep: Report, repo: Repo) -> None:
     ir = repo.func(PRE, 'PreprocessorData.insert_reserve')
     body = [norm(s) for s in ir.body]
     rb = repo.func(ASM, 'BinaryData.insert_reserve_bits')
-    asm_rb = {norm(s.targets[0]): norm(s.value) for s in rb.body if isinstance(s, ast.Assign)}
+    asm_rb = final_state('insert_reserve_bits')
     rb_call = [[norm(a) for a in c.args] for s in br.get(frozenset({'ReserveBits'}), []) for c in ast.walk(s) if isinstance(c, ast.Call) and dotted(c.func) == 'binary_data.insert_reserve_bits']
     ok = body == ['self.curr_address += reserved_bits_size', 'self.result_ops.append(ReserveBits(self.curr_address))'] and \
-        asm_rb.get('self.first_address') == 'new_first_address' and asm_rb.get('self.current_address') == 'self.first_address' and \
+        asm_rb.get('self.first_address') == 'new_first_address' and asm_rb.get('self.current_address') == 'new_first_address' and \
         rb_call == [['fjm_writer', 'op.first_address_after_reserved']]
     rep.check(ok, 'C02.ADDR-MODEL', 'ReserveBits', f'preprocessor {body}; emitter {asm_rb} from {rb_call}', f'{PRE}:{ir.lineno}',
               expected='advance, then record the address AFTER the reserved bits; emitter jumps to it')
@@ -237,14 +243,58 @@ def rule_paired(rep: Report, repo: Repo) -> None:
     rep.check(hole == ['WFlipSpot(self.fj_words, index, self.first_address + self.memory_width * index)'] and pops == ['self.padding_ops_indices.pop()'],
               'C02.PAIRED-UPDATE', 'get_wflip_spot:pad-hole', f'{hole}; index from {pops}', f'{ASM}:{sp.lineno}',
               expected='hole address = segment first address + w * word index; each hole used once (pop)')
-    pad = repo.func(ASM, 'BinaryData.insert_padding')
-    loop = [n for n in pad.body if isinstance(n, ast.For)]
-    ok = len(loop) == 1 and norm(loop[0].iter) == 'range(len(self.fj_words), len(self.fj_words) + 2 * ops_count, 2)' and \
-        [norm(s) for s in loop[0].body] == ['self.padding_ops_indices.append(i)', 'self.fj_words += (0, 0)']
+    pad = inline_pure_temps(repo.func(ASM, 'BinaryData.insert_padding'))
+    # two equivalent shapes are recognised: the append loop, and extend(range(..)) + one bulk extension of the word list. in both
+    # the recorded indices are range(L, L + 2k, 2) with L = len(fj_words) on entry and the word list grows by 2k zero words
+    class LenL(ast.NodeTransformer):
+        def visit_Call(self, node: ast.Call) -> ast.AST:
+            if dotted(node.func) == 'len' and len(node.args) == 1 and norm(node.args[0]) == 'self.fj_words':
+                return ast.Name(id='L', ctx=ast.Load())
+            return self.generic_visit(node)
+    rng = None
+    grow = None                 # words added per unit, number of units (expressions over k)
+    shape = 'unrecognised'
+    loops = [n for n in pad.body if isinstance(n, ast.For)]
+    if len(loops) == 1 and isinstance(loops[0].iter, ast.Call) and dotted(loops[0].iter.func) == 'range' and isinstance(loops[0].target, ast.Name):
+        body = [norm(x) for x in loops[0].body]
+        if sorted(body) == sorted([f'self.padding_ops_indices.append({loops[0].target.id})', 'self.fj_words += (0, 0)']):
+            rng, grow, shape = loops[0].iter.args, 'per-iteration', 'append loop'
+    else:
+        ext = [c for c in calls(pad) if dotted(c.func) == 'self.padding_ops_indices.extend' and len(c.args) == 1 and isinstance(c.args[0], ast.Call)
+               and dotted(c.args[0].func) == 'range']
+        bulk = [x for x in pad.body if isinstance(x, ast.AugAssign) and norm(x.target) == 'self.fj_words' and isinstance(x.op, ast.Add)]
+        if len(ext) == 1 and len(bulk) == 1:
+            v = bulk[0].value
+            if isinstance(v, ast.BinOp) and isinstance(v.op, ast.Mult):
+                tup, cnt = (v.left, v.right) if isinstance(v.left, ast.Tuple) else (v.right, v.left)
+                if isinstance(tup, ast.Tuple) and all(isinstance(e, ast.Constant) and e.value == 0 for e in tup.elts):
+                    rng, grow, shape = ext[0].args[0].args, (len(tup.elts), cnt), 'extend(range) + bulk zeros'
+    wrong = []
+    if rng is not None and len(rng) == 3:
+        for Lv in (0, 2, 10):
+            for k in (0, 1, 3, 7):
+                env = {'L': Lv, 'ops_count': k}
+                for st0 in pad.body:          # straight-line integer temporaries bound before the range is taken (entry-state values)
+                    if isinstance(st0, ast.Assign) and len(st0.targets) == 1 and isinstance(st0.targets[0], ast.Name):
+                        try:
+                            env[st0.targets[0].id] = eval_int_expr(LenL().visit(clone(st0.value)), env)
+                        except AnalysisError:
+                            pass
+                    elif not (isinstance(st0, ast.Expr) and isinstance(st0.value, ast.Constant)):
+                        break
+                got = list(range(*[eval_int_expr(LenL().visit(clone(a)), env) for a in rng]))
+                want = list(range(Lv, Lv + 2 * k, 2))
+                words = 2 * len(got) if grow == 'per-iteration' else grow[0] * eval_int_expr(LenL().visit(clone(grow[1])), env)
+                if got != want or words != 2 * k:
+                    wrong.append(f'L={Lv} ops={k}: indices {got[:4]} (want {want[:4]}), {words} words (want {2 * k})')
+    else:
+        wrong.append('neither the append loop nor the extend(range)+bulk shape')
     adv = [lx.lin_show(to_lin(py_ir(s.value), aenv)) for s in pad.body if isinstance(s, ast.AugAssign) and norm(s.target) == 'self.current_address']
-    rep.check(ok and len(adv) == 1 and adv[0] in ('(2*w)*(ops_count)', '(ops_count)*(2*w)'), 'C02.PAIRED-UPDATE', 'insert_padding',
-              f'loop {norm(loop[0].iter) if loop else None}; address += {adv}', f'{ASM}:{pad.lineno}',
-              expected='ops_count iterations x (index recorded, two zero words); address += ops_count * 2w')
+    if shape == 'unrecognised':
+        raise AnalysisError('BinaryData.insert_padding: unrecognised shape (extend the recogniser after review)')
+    rep.check(not wrong and len(adv) == 1 and adv[0] in ('(2*w)*(ops_count)', '(ops_count)*(2*w)'), 'C02.PAIRED-UPDATE', 'insert_padding',
+              f'{shape}: ' + (wrong[0] if wrong else 'indices range(L, L+2k, 2), 2k zero words') + f'; address += {adv}', f'{ASM}:{pad.lineno}',
+              expected='ops_count holes recorded at the indices of the zero words added; address += ops_count * 2w')
     seg = repo.func(ASM, 'add_segment_to_fjm')
     defs = {norm(s.targets[0]): norm(s.value) for s in seg.body if isinstance(s, ast.Assign)}
     rep.check(defs.get('segment_start_address') == 'first_address // memory_width' and
@@ -304,19 +354,22 @@ def rule_pad_state(rep: Report, repo: Repo) -> None:
     clears = [norm(s) for s in seg.body if isinstance(s, ast.Expr)]
     rep.check('fj_words.clear()' in clears and 'wflip_words.clear()' in clears, 'C02.PAD-STATE', 'add_segment_to_fjm:clears', str(clears[-2:]),
               f'{ASM}:{seg.lineno}', expected='both word lists are cleared after the segment is added')
-    flushers = {'add_segment_to_fjm', 'self.close_and_add_segment'}
     n = 0
     for name, fns in repo.methods(ASM, 'BinaryData').items():
         fn = fns[-1]
-        if name == 'close_and_add_segment':
+        if name == 'close_and_add_segment' or name.startswith('_'):
             continue
-        flush = [c for c in calls(fn) if dotted(c.func) in flushers and ('self.fj_words' in [norm(a) for a in c.args] or dotted(c.func) == 'self.close_and_add_segment')]
-        if not flush:
+        direct = [c for c in calls(fn) if (dotted(c.func) == 'add_segment_to_fjm' and 'self.fj_words' in [norm(a) for a in c.args])
+                  or dotted(c.func) == 'self.close_and_add_segment']
+        if not direct:
             continue
         n += 1
-        last_flush = max(c.lineno for c in flush)
-        cleared = [c.lineno for c in calls(fn) if norm(c) == 'self.padding_ops_indices.clear()']
-        ok = bool(cleared) and max(cleared) > last_flush
+        # effect order on every path (private helpers inlined): the hole list is cleared after the last flush
+        ok = True
+        for o in method_outcomes(repo, ASM, 'BinaryData', name):
+            fl = [i for i, e in enumerate(o.effects) if e.startswith('add_segment_to_fjm(') or e.startswith('self.close_and_add_segment(')]
+            cl = [i for i, e in enumerate(o.effects) if e == 'self.padding_ops_indices.clear()']
+            ok = ok and bool(fl) and bool(cl) and max(cl) > max(fl)
         rep.check(ok, 'C02.PAD-STATE', f'BinaryData.{name}', 'clears the hole list after flushing fj_words' if ok else
                   'flushes fj_words (cleared by add_segment_to_fjm) but keeps padding_ops_indices: a later wflip writes through a stale index '
                   '(IndexError -> generic failure, or a silently overwritten op)', f'{ASM}:{fn.lineno}', expected='self.padding_ops_indices.clear() after the flush')
@@ -333,19 +386,19 @@ def rule_validate_first(rep: Report, repo: Repo) -> None:
     rep.check(order == ['validate_addresses', 'fjm_writer.add_data', 'fjm_writer.add_segment'], 'C02.VALIDATE-FIRST', 'add_segment_to_fjm:order',
               str(order), f'{ASM}:{seg.lineno}')
     va = repo.func(ASM, 'validate_addresses')
-    g = [(norm(t), raised_class(r)) for t, r, _ in raise_guards(va)]
+    g = [(cn(t), raised_class(r)) for t, r, _ in raise_guards(va)]
     cs = [norm(c) for c in calls(va) if dotted(c.func) == 'assert_address_in_memory']
-    rep.check(g == [('first_address % memory_width != 0 or last_address % memory_width != 0', 'FlipJumpAssemblerException')] and
+    rep.check(g == [(cc('first_address % memory_width != 0 or last_address % memory_width != 0'), 'FlipJumpAssemblerException')] and
               cs == ['assert_address_in_memory(memory_width, first_address)', 'assert_address_in_memory(memory_width, last_address - 1)'],
               'C02.VALIDATE-FIRST', 'validate_addresses', f'{g}; {cs}', f'{ASM}:{va.lineno}')
     am = repo.func(ASM, 'assert_address_in_memory')
-    g = [(norm(t), raised_class(r)) for t, r, _ in raise_guards(am)]
-    rep.check(g == [('address < 0 or address >= 1 << memory_width', 'FlipJumpAssemblerException')], 'C02.VALIDATE-FIRST',
+    g = [(cn(t), raised_class(r)) for t, r, _ in raise_guards(am)]
+    rep.check(g == [(cc('address < 0 or address >= 1 << memory_width'), 'FlipJumpAssemblerException')], 'C02.VALIDATE-FIRST',
               'assert_address_in_memory', str(g), f'{ASM}:{am.lineno}', expected='0 <= address < 2^w')
     for q, test in (('get_next_segment_start', 'next_segment_start % preprocessor_data.memory_width != 0'),
                     ('get_reserved_bits_size', 'reserved_bits_size % preprocessor_data.memory_width != 0')):
         fn = repo.func(PRE, q)
-        ok = any(isinstance(n, ast.If) and norm(n.test) == test and any(isinstance(c, ast.Call) and dotted(c.func) == 'macro_resolve_error'
+        ok = any(isinstance(n, ast.If) and cn(n.test) == cc(test) and any(isinstance(c, ast.Call) and dotted(c.func) == 'macro_resolve_error'
                  for c in ast.walk(n)) for n in ast.walk(fn))
         rep.check(ok, 'C02.VALIDATE-FIRST', q, f'w-alignment check present={ok}', f'{PRE}:{fn.lineno}')
 
